@@ -4,7 +4,8 @@ for the answers, and a history generator that interleaves set_data on single nod
 Probe keys (per tree; the Coq side is `Lookup.probe`, rendered by `Lookup.sx_probe`):
     ("count",)        tree.count (= len(tree)), tree.count_unique
     ("data", d)       universe object d:  find_all(obj), find_first(obj), obj in tree, tree[obj], tree.calc_data_id(obj)
-    ("did", e)        an int/str e:       find_all(data_id=e), find_first(data_id=e), find_all(e), e in tree, tree[e]
+    ("did", e)        an int/str e:       find_all(data_id=e), find_first(data_id=e), find_all(e), e in tree, tree[e],
+                                          find_all(data_id=e, max_results=k) for k = 0..3
     ("nid", n)        node_id k of node n: find_first(node_id=k), tree[k]
     ("node", n)       the node n (while it is in this tree): get_clones(), get_clones(add_self=True), is_clone(), n in tree
 The static keys (count, every universe object, every data_id that can occur in the history: explicit ids of the ops,
@@ -193,7 +194,8 @@ class Prober:
                     H.sx_opt((lambda r: None if r is None else w.rel(r))(t.find_first(data_id=e))),
                     cb(lambda: self.ids(w, t.find_all(e))),
                     cb(lambda: bool(e in t)),
-                    self.getitem(w, t, e)]
+                    self.getitem(w, t, e),
+                    [self.ids(w, t.find_all(data_id=e, max_results=k)) for k in (0, 1, 2, 3)]]
         if k == "nid":
             nk = self.nid[key[1]]
             return [H.sx_opt((lambda r: None if r is None else w.rel(r))(t.find_first(node_id=nk))),
@@ -375,6 +377,11 @@ def lookup_oracle(w, ti, prober, answers):
                 m = chk_item(f"tree[{e!r}]", got[4], cands)
                 if m:
                     return m
+            for k, g in zip((0, 1, 2, 3), got[5]):
+                # at most k (0 = no limit) of the carriers, none twice, as many as there are up to the limit
+                want = len(exp) if k == 0 else min(k, len(exp))
+                if len(set(g)) != len(g) or any(x not in exp for x in g) or len(g) != want:
+                    return f"find_all(data_id={e!r}, max_results={k}) returned {g}, carriers of that id: {exp}"
         elif k == "nid":
             nk = prober.nid[key[1]]
             holder = [rel(n) for n in R if n._node_id == nk]
